@@ -627,7 +627,13 @@ type fpClient struct {
 	f *fakeP4
 }
 
+// vYieldHook, when set (scheduler engine), turns every datapath RPC of the direct clients into a scheduling point.
+var vYieldHook func(loc string)
+
 func (c *fpClient) Write(ctx context.Context, in *p4.WriteRequest, opts ...grpc.CallOption) (*p4.WriteResponse, error) {
+	if vYieldHook != nil {
+		vYieldHook("p4.write")
+	}
 	if err := c.f.write(in); err != nil {
 		return nil, err
 	}
